@@ -57,6 +57,34 @@ def run_one(rng, counters):
             return [], False, {"params": p}
         cover = rng.choice(["full", "full", "partial"])
         truth, blocks = genome.truth_phased_doc(sim, rng, tag="PS", block_len=(1000, 1000) if linked else (3, 10))
+        hostile = rng.random() < 0.3
+        n_multi = n_dup = 0
+        if hostile:
+            # (a) SNV records turned multi-allelic: an unused first ALT is added, the carried ALT becomes allele 2 (0|1 -> 0|2);
+            # (b) a second record at the position of a variant (as from splitting a multi-allelic site), heterozygous and phased
+            new = []
+            for r in truth.records:
+                if r.get("kind") == "snv" and len(r["ref"]) == 1 and rng.random() < 0.2:
+                    other = rng.choice([b for b in "ACGT" if b not in (r["ref"], r["alts"][0])])
+                    r["alts"] = [other, r["alts"][0]]
+                    for call in r["calls"]:
+                        call["GT"] = call["GT"].replace("1", "2")
+                    n_multi += 1
+                    new.append(r)
+                    continue
+                new.append(r)
+                if r.get("kind") == "snv" and len(r["ref"]) == 1 and rng.random() < 0.15:
+                    other = rng.choice([b for b in "ACGT" if b not in (r["ref"], r["alts"][0])])
+                    calls = []
+                    for call in r["calls"]:
+                        if "|" in call["GT"]:
+                            calls.append({"GT": rng.choice(["0|1", "1|0"]), "GQ": "30", "PS": call.get("PS", ".")})
+                        else:
+                            calls.append({"GT": "0/0", "GQ": "30", "PS": "."} if "PS" in r["fmt"] else {"GT": "0/0", "GQ": "30"})
+                    new.append({"chrom": r["chrom"], "pos": r["pos"], "id": ".", "ref": r["ref"], "alts": [other], "qual": ".", "filter": ".", "info": ".",
+                                "fmt": list(r["fmt"]), "calls": calls, "kind": "dup"})
+                    n_dup += 1
+            truth.records = new
         tvcf = os.path.join(tmp, "truth.vcf.gz")
         truth.write(tvcf, compress=True)
         # reads confined to one phase set (per sample): drop reads whose span covers het variants of two blocks
@@ -93,7 +121,7 @@ def run_one(rng, counters):
         src.close()
         pysam.index(fbam)
         only_indels = rng.random() < 0.25 and p["kinds"] != ["snv"]
-        desc = {"params": p, "cover": cover, "linked": linked, "only_indels": only_indels}
+        desc = {"params": p, "cover": cover, "linked": linked, "only_indels": only_indels, "multiallelic_records": n_multi, "duplicate_position_records": n_dup}
         if n_kept == 0:
             return [], False, desc
         tagged = os.path.join(tmp, "tagged.bam")
@@ -129,7 +157,8 @@ def run_one(rng, counters):
                         continue
                     a = sorted(call["GT"].split("|"))
                     call["GT"] = "/".join(a)
-                    call["PS"] = "."
+                    if "PS" in call:
+                        call["PS"] = "."
             ivcf = os.path.join(tmp, "input.vcf.gz")
             inp.write(ivcf, compress=True)
             itext = inp.text()
@@ -151,14 +180,19 @@ def run_one(rng, counters):
         if len(orecs) != len(trecs):
             return [{"mech": "record-count", "msg": "%d records in, %d out" % (len(trecs), len(orecs))}], False, desc
         n_votes = 0
+        prev_key = None
         for rt, ri, ro in zip(trecs, irecs, orecs):
+            this_key = (ri["chrom"], ri["pos"])
             for s in samples:
                 ct, ci, co = rt["calls"][tsamples.index(s)], ri["calls"][isamples.index(s)], ro["calls"][osamples.index(s)]
                 dt, di, do = vcftext.decode_ps(ct), vcftext.decode_ps(ci), vcftext.decode_ps(co)
                 if di is not None:
                     counters["prephased_checked"] = counters.get("prephased_checked", 0) + 1
+                    kind = ":multiallelic" if len(ri["alts"]) > 1 else ":duplicate-position" if prev_key == (ri["chrom"], ri["pos"]) else ""
+                    if kind:
+                        counters["prephased_checked" + kind.replace(":", "_").replace("-", "_")] = counters.get("prephased_checked" + kind.replace(":", "_").replace("-", "_"), 0) + 1
                     if do != di:
-                        viol.append({"mech": "prephased-variant-altered" + (":lost" if do is None else ""),
+                        viol.append({"mech": "prephased-variant-altered" + (":lost" if do is None else "") + kind,
                                      "msg": "%s %s:%d was phased in the input (%r), result has %r (call %r)" % (s, ro["chrom"], ro["pos"], di, do, co)})
                     continue
                 if do is None:
@@ -171,6 +205,7 @@ def run_one(rng, counters):
                     viol.append({"mech": "wrong-haplotype-order", "msg": "%s %s:%d phased %r, original %r" % (s, ro["chrom"], ro["pos"], do, dt)})
                 elif do[0] != dt[0]:
                     viol.append({"mech": "wrong-phase-set", "msg": "%s %s:%d phased into set %r, the reads covering it carry set %r" % (s, ro["chrom"], ro["pos"], do[0], dt[0])})
+            prev_key = this_key
         nt = n_votes >= 3 and (mode != "partial" or bool(kept))
         seen = set()
         viol = [x for x in viol if not (x["mech"] in seen or seen.add(x["mech"]))]
